@@ -215,8 +215,13 @@ def gen_history(rng, backend, big=False, multi=True):
             ok, _ = spec.accepts(ev)
             if ok:
                 spec.apply(ev)
-                if ev["e"] == "meas" and len(ev["ms"]) == 1:
-                    measured |= {ref_idx(r) for r in ev["ms"]}
+                if ev["e"] == "meas":
+                    # only a post-selected homodyne leaves a known value (0.25) in the RegRef; a later MeasureFock
+                    # of the same mode overwrites it with a photon number
+                    if len(ev["ms"]) == 1:
+                        measured |= {ref_idx(r) for r in ev["ms"]}
+                    else:
+                        measured -= {ref_idx(r) for r in ev["ms"]}
             evs.append(ev)
         # ---- end of segment
         created = len(spec.rows)
